@@ -48,6 +48,7 @@ type schedState struct {
 	locked   map[*Value]bool
 	wg       map[*Value]int64
 	switches int
+	race     *raceState
 }
 
 func (w *Worker) schedStart(level, preempt, timers int) {
@@ -149,6 +150,7 @@ func (w *Worker) goStmtSched(fr *frame, instr *ssa.Go, fn Value, args []Value) {
 	g := &gor{id: len(s.gs), wake: make(chan struct{})}
 	s.gs = append(s.gs, g)
 	g.started = true
+	w.raceFork(g.id)
 	go func() {
 		<-g.wake
 		if s.killing {
@@ -205,10 +207,22 @@ func (w *Worker) chanSendSched(fr *frame, c *Chan, v Value, pos token.Pos) {
 	if w.logging {
 		w.mapUndo = append(w.mapUndo, func() { c.buf = old })
 	}
+	if w.sched.raceOn() {
+		r := w.sched.race
+		g := w.sched.cur.id
+		// capacity edge: the k-th receive happens before the (k+cap)-th send completes
+		if c.cap > 0 && c.sent >= c.cap && c.sent-c.cap < len(c.recvVCs) {
+			r.vc[g] = joinVC(r.clockOf(g), c.recvVCs[c.sent-c.cap])
+		}
+		c.sent++
+		c.vcs = append(c.vcs, r.clockOf(g).copyOf())
+		r.tick(g)
+	}
 	if c.cap == 0 {
 		// rendezvous: the send completes only when a receiver has taken the value
 		t0 := c.taken
 		w.yieldPoint(func() bool { return c.taken > t0 }, "chan send (waiting for the receiver)")
+		w.raceAcquire(chanTaker{c})
 	}
 }
 
@@ -226,6 +240,7 @@ func (w *Worker) chanRecvSched(fr *frame, c *Chan, commaOk bool, t types.Type, p
 		elem = t
 	}
 	if len(c.buf) == 0 {
+		w.raceAcquire(chanClose{c})
 		if commaOk {
 			return Tuple{zero(elem), false}
 		}
@@ -235,6 +250,7 @@ func (w *Worker) chanRecvSched(fr *frame, c *Chan, commaOk bool, t types.Type, p
 	v := c.buf[0]
 	c.buf = c.buf[1:]
 	c.taken++
+	w.raceRecvEdge(c)
 	if w.logging {
 		w.mapUndo = append(w.mapUndo, func() { c.buf = old })
 	}
@@ -295,12 +311,14 @@ func (w *Worker) selectSched(fr *frame, instr *ssa.Select) Value {
 					v := c.buf[0]
 					c.buf = c.buf[1:]
 					c.taken++
+					w.raceRecvEdge(c)
 					if w.logging {
 						w.mapUndo = append(w.mapUndo, func() { c.buf = old })
 					}
 					r[1] = true
 					r = append(r, v)
 				} else {
+					w.raceAcquire(chanClose{c})
 					r = append(r, zero(elem))
 				}
 			} else {
@@ -328,20 +346,24 @@ func (w *Worker) syncOpSched(fr *frame, name string, a []Value) Value {
 	case "(*sync.Mutex).Lock", "(*sync.RWMutex).Lock", "(*sync.RWMutex).RLock":
 		w.yieldPoint(func() bool { return !s.locked[p] }, "lock")
 		s.locked[p] = true
+		w.raceAcquire(p)
 	case "(*sync.Mutex).Unlock", "(*sync.RWMutex).Unlock", "(*sync.RWMutex).RUnlock":
 		if !s.locked[p] {
 			panic(targetPanic{v: Iface{t: w.rtErrType, v: mkStr("sync: unlock of unlocked mutex")}, where: fr.fn.String()})
 		}
 		s.locked[p] = false
+		w.raceRelease(p, false)
 	case "wg.Add":
 		s.wg[p] += w.concInt(a[1])
 	case "wg.Done":
 		s.wg[p]--
+		w.raceRelease(p, true)
 		if s.wg[p] < 0 {
 			panic(targetPanic{v: Iface{t: w.rtErrType, v: mkStr("sync: negative WaitGroup counter")}, where: fr.fn.String()})
 		}
 	case "wg.Wait":
 		w.yieldPoint(func() bool { return s.wg[p] == 0 }, "wg.Wait")
+		w.raceAcquire(p)
 	default:
 		panic(engineError{"sync operation without a model: " + name})
 	}
@@ -349,3 +371,27 @@ func (w *Worker) syncOpSched(fr *frame, name string, a []Value) Value {
 }
 
 var _ = fmt.Sprint
+
+type chanTaker struct{ c *Chan }
+type chanClose struct{ c *Chan }
+
+// raceRecvEdge: the receiver learns what the sender knew; the sender of an
+// unbuffered channel learns what the receiver knew when it took the value.
+func (w *Worker) raceRecvEdge(c *Chan) {
+	if !w.sched.raceOn() {
+		return
+	}
+	r := w.sched.race
+	g := w.sched.cur.id
+	if len(c.vcs) > 0 {
+		r.vc[g] = joinVC(r.clockOf(g), c.vcs[0])
+		c.vcs = c.vcs[1:]
+	}
+	if c.cap == 0 {
+		r.sync[chanTaker{c}] = r.clockOf(g).copyOf()
+		r.tick(g)
+	} else {
+		c.recvVCs = append(c.recvVCs, r.clockOf(g).copyOf())
+		r.tick(g)
+	}
+}
